@@ -104,42 +104,81 @@ def _observe_e2e(case):
     return cid, a, None
 
 
-def collect(tier: str, seed: int = 0, consts: dict | None = None, pairs: bool = True):
-    """Returns dict(model=TlcResult, items=[(meta, report)], states, transitions, traces, errors=[...])."""
+def collect(tier: str, seed: int = 0, consts: dict | None = None, pairs: bool = True, on_item=None):
+    """Returns dict(items=[(meta, report, trace)], states, transitions, traces, errors=[...]).
+    With on_item (a callback taking meta, report, trace) nothing is kept: the model is explored one width at a time (thorough) and the
+    observations are validated and handed over in chunks, so that the memory stays bounded (the thorough tier needed 14 GB at once, and the
+    forked observation workers inherited it)."""
     consts = dict(consts or TIERS[tier], DoDump=True)
-    res = tlc.run_tlc("SentenceWrap", tlc.cfg_text(constants=consts, invariants=MODEL_INVS), coverage=True, timeout=3000)
-    for act in ("Sentence", "Finish", "NoWrap"):
-        if res.coverage.get(act, (0, 0))[0] == 0:
-            raise tlc.TlcError(f"vacuous model: action {act} never taken")
-    beh = sorted((r for r in res.reports if r and r[0] == "B"), key=json.dumps)
+    allw = sorted(consts["Widths"])
+    groups = [set(allw)] if (on_item is None or tier == "quick") else [{w} for w in allw]
     lens = sorted(consts["Lens"])
-    # pairs multiply the work: take them for every behaviour of <= 3 words and a stride of the rest
-    cases = []
-    for cid, b in enumerate(beh):
-        _, words, width, minlen, ii, si, md, mlines = b
-        with_pairs = pairs and (not md) and (len(words) <= 3 or cid % (7 if tier == "quick" else 2) == 0)
-        cases.append((cid, words, width, minlen, ii, si, md, lens, with_pairs))
-    # negative widths cannot be written in a TLC cfg file: width-0 behaviours are also observed at width -1
-    cases += [(len(cases) + k, c[1], -1, c[3], c[4], c[5], c[6], c[7], False) for k, c in enumerate([c for c in cases if c[2] == 0])]
-    traces, meta, errors = [], {}, []
+    items, errors = [], []
+    tot = dict(states=0, transitions=0, traces=0, behaviours=0)
+    taken = {}
     tid = 0
-    for case, (cid, a, steps, pairs, exc) in zip(cases, pmap(_observe, cases)):
-        _, words, width, minlen, ii, si, md, _, _ = case
-        base = dict(fn="line_wrap_by_sentence", text=" ".join(vocab.concretise(words, positional=False)), width=width,
-                    minlen=minlen, ii=ii, si=si, md=md)
-        if exc:
-            errors.append(dict(base, exc=exc))
-            continue
-        tid += 1
-        traces.append(dict(id=tid, kind="single", words=words, width=width, minlen=minlen, ii=ii, si=si, md=md,
-                           ok=a["ok"], out=a["out"], steps=steps, ind=a["ind"]))
-        meta[tid] = dict(base, kind="single", output=a["raw"], ind=a["ind"], nlines=len(a["out"]))
-        for ws2, q, b in pairs:
-            tid += 1
-            traces.append(dict(id=tid, kind="pair", words=words, width=width, minlen=minlen, ii=ii, si=si, md=md,
-                               ok=a["ok"], out=a["out"], steps=[], ind=a["ind"], words2=ws2, ok2=b["ok"], out2=b["out"], j=q))
-            meta[tid] = dict(base, kind="pair", output=a["raw"], text2=" ".join(vocab.concretise(ws2, positional=False)),
-                             output2=b["raw"], edited_sentence=q, ind=a["ind"], nlines=len(a["out"]))
+    cid0 = 0
+    CH = 60000
+
+    def flush(traces, meta):
+        if not traces:
+            return
+        reports, gen, dist = tlc.validate_traces("SentenceTrace", traces, cfg=TRACE_CFG, timeout=3000)
+        tot["states"] += dist
+        tot["transitions"] += gen
+        tot["traces"] += len(traces)
+        for t in traces:
+            if on_item is None:
+                items.append((meta[t["id"]], reports[t["id"]], t))
+            else:
+                on_item(meta[t["id"]], reports[t["id"]], t)
+
+    for ws in groups:
+        res = tlc.run_tlc("SentenceWrap", tlc.cfg_text(constants=dict(consts, Widths=ws), invariants=MODEL_INVS), coverage=True, timeout=3000)
+        for act in ("Sentence", "Finish", "NoWrap"):
+            taken[act] = taken.get(act, 0) + res.coverage.get(act, (0, 0))[0]
+        tot["states"] += res.distinct
+        tot["transitions"] += res.generated
+        beh = sorted((r for r in res.reports if r and r[0] == "B"), key=json.dumps)
+        del res
+        tot["behaviours"] += len(beh)
+        # pairs multiply the work: take them for every behaviour of <= 3 words and a stride of the rest
+        cases = []
+        for k, b in enumerate(beh):
+            cid = cid0 + k
+            _, words, width, minlen, ii, si, md, mlines = b
+            with_pairs = pairs and (not md) and (len(words) <= 3 or cid % (7 if tier == "quick" else 2) == 0)
+            cases.append((cid, words, width, minlen, ii, si, md, lens, with_pairs))
+        del beh
+        # negative widths cannot be written in a TLC cfg file: width-0 behaviours are also observed at width -1
+        cases += [(cid0 + len(cases) + k, c[1], -1, c[3], c[4], c[5], c[6], c[7], False) for k, c in enumerate([c for c in cases if c[2] == 0])]
+        cid0 += len(cases)
+        for lo in range(0, len(cases), CH):
+            part = cases[lo: lo + CH]
+            traces, meta = [], {}
+            for case, (cid, a, steps, prs, exc) in zip(part, pmap(_observe, part)):
+                _, words, width, minlen, ii, si, md, _, _ = case
+                base = dict(fn="line_wrap_by_sentence", text=" ".join(vocab.concretise(words, positional=False)), width=width,
+                            minlen=minlen, ii=ii, si=si, md=md)
+                if exc:
+                    errors.append(dict(base, exc=exc))
+                    continue
+                tid += 1
+                traces.append(dict(id=tid, kind="single", words=words, width=width, minlen=minlen, ii=ii, si=si, md=md,
+                                   ok=a["ok"], out=a["out"], steps=steps, ind=a["ind"]))
+                meta[tid] = dict(base, kind="single", output=a["raw"], ind=a["ind"], nlines=len(a["out"]))
+                for ws2, q, b in prs:
+                    tid += 1
+                    traces.append(dict(id=tid, kind="pair", words=words, width=width, minlen=minlen, ii=ii, si=si, md=md,
+                                       ok=a["ok"], out=a["out"], steps=[], ind=a["ind"], words2=ws2, ok2=b["ok"], out2=b["out"], j=q))
+                    meta[tid] = dict(base, kind="pair", output=a["raw"], text2=" ".join(vocab.concretise(ws2, positional=False)),
+                                     output2=b["raw"], edited_sentence=q, ind=a["ind"], nlines=len(a["out"]))
+            flush(traces, meta)
+        del cases
+    for act in ("Sentence", "Finish", "NoWrap"):
+        if taken.get(act, 0) == 0:
+            raise tlc.TlcError(f"vacuous model: action {act} never taken")
+    traces, meta = [], {}
     # end-to-end family with the default min_line_len = 20
     wordset = [{"k": "p", "n": 4}, {"k": "p", "n": 9}, {"k": "s", "n": 5}, {"k": "s", "n": 10}]
     maxw = 4 if tier == "quick" else 5
@@ -168,10 +207,9 @@ def collect(tier: str, seed: int = 0, consts: dict | None = None, pairs: bool = 
         traces.append(dict(id=tid, kind="single", words=words, width=width, minlen=20, ii=len(ii), si=len(si), md=True,
                            ok=a["ok"], out=a["out"], steps=[], ind=a["ind"]))
         meta[tid] = dict(base, kind="single", output=a["raw"], ind=a["ind"], nlines=len(a["out"]), e2e=True)
-    reports, gen, dist = tlc.validate_traces("SentenceTrace", traces, cfg=TRACE_CFG, timeout=3000)
-    items = [(meta[t["id"]], reports[t["id"]], t) for t in traces]
-    return dict(model=res, items=items, states=res.distinct + dist, transitions=res.generated + gen,
-                traces=len(traces), errors=errors, behaviours=len(beh), consts=consts)
+    flush(traces, meta)
+    return dict(items=items, states=tot["states"], transitions=tot["transitions"], traces=tot["traces"], errors=errors,
+                behaviours=tot["behaviours"], consts=consts)
 
 
 def split_report(rep):
